@@ -2,6 +2,7 @@ package c37
 
 import (
 	"context"
+	"fmt"
 	"reflect"
 	"runtime"
 	"sync"
@@ -224,3 +225,97 @@ var tgHiveDoFindNode = register(&target{
 })
 
 func TestC37_Hive2DoFindNode(t *testing.T) { check(t, tgHiveDoFindNode, 200) }
+
+// ---- hive2 DoFindNode with a long reply of valid, reachable records, and the service shut down while the
+// records are being validated (validations of reachable peers sleep 500 ms before reporting; at most
+// 31 run at once, so a longer reply leaves the batch loop waiting - which a shutdown interrupts)
+
+var (
+	manyOnce sync.Once
+	manyIDs  []*identity
+)
+
+func many() []*identity {
+	manyOnce.Do(func() {
+		for i := 0; i < 70; i++ {
+			manyIDs = append(manyIDs, newIdentity(byte(0x60+i), fmt.Sprintf("8.9.%d.%d", 1+i/200, 1+i%200)))
+		}
+	})
+	return manyIDs
+}
+
+var tgHiveLongReply = register(&target{
+	name:    "hive2-DoFindNode-long-reply",
+	reTypes: hivePeersTypes,
+	client:  true,
+	gen: func(t *rapid.T) kase {
+		var c kase
+		n := rapid.SampledFrom([]int{5, 30, 31, 32, 33, 40, 64, 70}).Draw(t, "records")
+		c.K = map[string]int{"records": n, "closeafter": rapid.SampledFrom([]int{-1, 0, 50, 150, 300}).Draw(t, "closeafter")}
+		var ps []*hivepb.AuroraAddress
+		for _, i := range many()[:n] {
+			u, _ := i.fullMA.MarshalBinary()
+			ps = append(ps, &hivepb.AuroraAddress{Underlay: u, Signature: i.addr.Signature, Overlay: i.overlay.Bytes()})
+		}
+		c.Replies, c.Gen = [][]byte{pstub.Frame(mustMarshal(&hivepb.Peers{Peers: ps}))}, "framed"
+		return c
+	},
+	nt: func(c *kase) bool { return c.k("records") > 31 && c.k("closeafter") >= 0 },
+	run: func(c *kase) []string {
+		ids()
+		st := newStateStore()
+		ab := addressbook.New(st)
+		kad := newKad(ab)
+		ss := pstub.NewScriptedStreamer(c.Replies...)
+		svc := hive2.New(ss, ab, networkID, logger)
+		svc.SetConfig(hive2.Config{Kad: kad, Base: nodeID.overlay})
+		svc.SetAddPeersHandler(kad.AddPeers)
+		ctx, cancel := bg()
+		defer cancel()
+		g0 := runtime.NumGoroutine()
+		cls := []string{}
+		closed := make(chan struct{})
+		if d := c.k("closeafter"); d >= 0 {
+			go func() {
+				time.Sleep(time.Duration(d) * time.Millisecond)
+				_ = svc.Close()
+				close(closed)
+			}()
+			cls = append(cls, "shutdown-during-validation")
+		} else {
+			close(closed)
+		}
+		// on a shutdown in mid-batch the unchanged code never closes the result channel, so the caller
+		// waits for ever (a hang on shutdown, not a crash: outside this property) - the call therefore
+		// runs on its own goroutine and is given 3 s
+		finished := make(chan struct{})
+		go func() {
+			defer close(finished)
+			defer func() { _ = recover() }()
+			res, err := svc.DoFindNode(ctx, otherID.overlay, peerID.overlay, []int32{0, 1, 2}, 16)
+			_ = err
+			if res != nil {
+				for a := range res {
+					_ = a.String()
+				}
+			}
+		}()
+		select {
+		case <-finished:
+		case <-time.After(3 * time.Second):
+			cls = append(cls, "caller-still-waiting-after-shutdown")
+		}
+		<-closed
+		// validations already past their ping report after their 500 ms pause
+		time.Sleep(700 * time.Millisecond)
+		useAddressBook(ab)
+		if c.k("closeafter") < 0 {
+			_ = svc.Close() // once only: Close is not idempotent (it closes a channel)
+		}
+		cancel()
+		settle(g0, 500*time.Millisecond)
+		return cls
+	},
+})
+
+func TestC37_Hive2LongReply(t *testing.T) { check(t, tgHiveLongReply, 24) }
